@@ -707,6 +707,27 @@ func c05Corpus(req, reply []byte, e *Env) (items [][]byte, classes []string) {
 			add(fmt.Sprintf("ff-run-after-payload-%d-%#x", n, flags), append(append(h2, bytes.Repeat([]byte{0x11}, 16)...), bytes.Repeat([]byte{0xff}, n)...))
 		}
 	}
+	if len(R) >= 16 {
+		// the correct reply claiming to be authenticated (and encrypted), with a syntactically complete
+		// trailer behind the payload: integrity pad, pad length, next header and an AuthCode of every
+		// length an algorithm uses (or none) - whatever the connection has negotiated, or nothing yet
+		for _, fl := range []byte{0x40, 0xc0} {
+			for _, al := range []int{0, 1, 12, 16, 20} {
+				for _, wrongPad := range []bool{false, true} {
+					m := append([]byte(nil), R...)
+					m[5] |= fl
+					pad := (4 - (len(m)-4+2)%4) % 4
+					if wrongPad {
+						pad = (pad + 1) % 4
+					}
+					m = append(m, bytes.Repeat([]byte{0xff}, pad)...)
+					m = append(m, byte(pad), 0x07)
+					m = append(m, bytes.Repeat([]byte{0x5a}, al)...)
+					add(fmt.Sprintf("auth-flag-with-trailer-%#x-%d-%v", fl, al, wrongPad), m)
+				}
+			}
+		}
+	}
 	add("asf-pong", []byte{6, 0, 0xff, 6, 0, 0, 0x11, 0xbe, 0x40, 0, 0, 0x10})
 	add("v15-wrapper", refbmc.RMCP(append([]byte{0, 1, 0, 0, 0, 0, 0, 0, 0, 8}, refbmc.BuildRsp(0x81, 7, 0, 0x20, 1, 0, 0x38, 0, nil)...)))
 	add("v15-authcode-short", refbmc.RMCP([]byte{2, 1, 0, 0, 0, 0, 0, 0, 0, 1, 2, 3}))
